@@ -135,3 +135,11 @@ def permuted_names(rng, n):
     names = ['L%d' % (i + 1) for i in range(n)]
     rng.shuffle(names)
     return names
+
+
+def dotted_names(rng, n):
+    """layer names that differ only where one of them has a dot (a name used
+    as a regular expression would confuse them)"""
+    names = ['La.b', 'La_b', 'LaXb', 'La.b.c', 'L2', 'La-b'][:max(n, 2)]
+    rng.shuffle(names)
+    return names[:n]
